@@ -405,7 +405,7 @@ def class_fields(mod: Module, clsname: str) -> List[str]:
                     add(s)
         elif isinstance(st, ast.AnnAssign) and isinstance(st.target, ast.Name):
             ann = ast.unparse(st.annotation)
-            if 'ClassVar' in ann:
+            if 'ClassVar' in ann or ('Final' in ann and st.value is not None):
                 continue
             add(st.target.id)
     for mname in ('__init__', '__attrs_post_init__'):
